@@ -41,7 +41,8 @@ STEPS = (0, 0, 0, 1, 4, 5, 5, 5, 6, 10, 10, 15)
 
 
 def units(tier: str, seed: int) -> list[dict]:
-    return [{"lo": lo, "hi": hi, "seed": seed} for lo, hi in chunks(CASES[tier], 16 if tier == "quick" else 64)]
+    from ._subjects_conc import conc_units
+    return [{"lo": lo, "hi": hi, "seed": seed} for lo, hi in chunks(CASES[tier], 16 if tier == "quick" else 64)] + conc_units(tier, seed)
 
 
 def gen(r: Any) -> dict:
@@ -219,9 +220,17 @@ def run_case(seed: int, idx: int, res: UnitResult) -> None:
 
 
 def run_unit(unit: dict, res: UnitResult) -> None:
+    if unit.get("mode") == "conc":
+        from ._subjects_conc import run_conc_unit
+        run_conc_unit(ID, 'replay', unit, res)
+        return
     for idx in range(unit["lo"], unit["hi"]):
         run_case(unit["seed"], idx, res)
 
 
 def replay(rep: dict, res: UnitResult) -> None:
+    if "scenario" in rep:
+        from ._subjects_conc import replay_conc
+        replay_conc(ID, 'replay', rep, res)
+        return
     run_case(rep["seed"], rep["idx"], res)
